@@ -9,7 +9,7 @@ from .interp import InterpBase, Frame, parse_expr
 
 SPEC_FUNCS = {"forall", "exists", "implies", "ite", "old", "seq_eq", "iff", "let", "count_true",
               "is_none", "opt_val", "strlen", "char_at", "substr", "in_re", "fresh_int", "imin", "imax",
-              "to_real", "distinct", "seq", "lam_seq", "str_of_int", "absv", "present", "iter_pos"}
+              "to_real", "distinct", "seq", "lam_seq", "str_of_int", "absv", "present", "iter_pos", "py_strip", "py_lower", "py_upper"}
 
 
 class EvalMixin(InterpBase):
@@ -211,7 +211,7 @@ class EvalMixin(InterpBase):
             return ModuleV("os.path")
         if isinstance(base, NdV) and name == "dtype":
             return Opaque(("dtype", base.dtype))
-        if isinstance(base, (ListV, DictV, tuple, IterV, NdV, RegexV)) or is_strv(base):
+        if isinstance(base, (ListV, DictV, tuple, IterV, NdV, RegexV, MatchV)) or is_strv(base):
             return BoundMethod(base, "builtin." + name)
         if isinstance(base, ExcV):
             return Opaque(("excattr", name))
@@ -506,6 +506,21 @@ class EvalMixin(InterpBase):
                     return None
                 raise Unsupported(f"super().{node.func.attr} not found")
             return self.call_function(fn, [recv] + args, kwargs, fr, static=True)
+        ac = getattr(self.top, "abstract_calls", None) if self.top is not None else None
+        if ac and not fr.spec:
+            txt = ast.unparse(node.func)
+            if txt in ac:
+                # a call into a library object (construct parser ...) replaced by its ASSUMED contract
+                args, kwargs = self.eval_args(node, fr)
+                con = self.registry[ac[txt]]
+                names = list(con.params.keys())
+                bound = {}
+                for i, n in enumerate(names):
+                    if i < len(args):
+                        bound[n] = args[i]
+                    elif n in kwargs:
+                        bound[n] = kwargs[n]
+                return self.apply_contract(con, bound, fr, "builtins", None)
         f = self.ev(node.func, fr)
         args, kwargs = self.eval_args(node, fr)
         return self.call_value(f, args, kwargs, fr, node)
